@@ -1,3 +1,5 @@
+    broadcast use {lemma_bcd_fold_overflow, lemma_shr4_le, lemma_and_0f_le};
+
     /// Contract of a value encoding (C17; used by C01, C03, C14).
     pub trait Encoding<T> {
         /// values the encoder is defined on
@@ -35,3 +37,4 @@
 
     //@ item src:zvt_builder/src/encoding.rs | struct BigEndian
     //@ include u1_enc_ints.tpl
+    //@ include u1_enc_bcd.tpl
